@@ -33,6 +33,14 @@ pub fn int_pool() -> Vec<i64> {
         i64::MAX,
         i64::MIN,
         i64::MIN + 1,
+        // products and cubes at the overflow boundary
+        3037000499,
+        3037000500,
+        -3037000500,
+        2097151,
+        2097152,
+        (1 << 32) - 1,
+        (1 << 32) + 1,
     ]
 }
 
@@ -75,7 +83,8 @@ pub fn float_pool() -> Vec<f64> {
 
 pub fn string_pool() -> Vec<&'static str> {
     vec![
-        "", "a", "b", "ab", "A", " x ", "äb", "日本", "ß", "İ", "é", "😀", "a\"b\\c", "/*", "//", "0",
+        "", "a", "b", "ab", "A", " x ", "äb", "日本", "ß", "İ", "é", "😀", "a\"b\\c", "/*", "//", "0", "ΟΔΥΣΣΕΥΣ", "ΣΑΣ Σ.", "ǅŉﬁ",
+        "\u{3000}price\u{a0}",
     ]
 }
 
@@ -199,7 +208,7 @@ pub fn alphabet11() -> Vec<Tok> {
 pub fn alphabet23() -> Vec<Tok> {
     [
         "1", "2.5", "a", "f", "\"s\"", "true", "(", ")", "+", "-", "*", "/", "%", "^", "!", "<", "==", "&&", "||",
-        "=", "&&=", ",", ";", "\"\\\"(\"",
+        "=", "&&=", ",", ";", "\"\\\"(\"", "and",
     ]
     .iter()
     .map(|s| tok(s))
@@ -210,7 +219,7 @@ pub fn alphabet23() -> Vec<Tok> {
 pub fn alphabet_all() -> Vec<Tok> {
     let mut v: Vec<Tok> = crate::refmodel::lex::OPS.iter().map(|o| tok(o)).collect();
     // (the last three are words the documentation does not define; a separator must not change them either)
-    for w in ["1", "2.5", "0x1f", "1e3", "a", "f", "x", "true", "\"s\"", "\"/*\"", "1e", "9223372036854775808", "0xffffffffffffffffff", "1e999", "\")\\\"\"", "\"(\""] {
+    for w in ["1", "2.5", "0x1f", "1e3", "a", "f", "x", "true", "\"s\"", "\"/*\"", "1e", "9223372036854775808", "0xffffffffffffffffff", "1e999", "\")\\\"\"", "\"(\"", "0x1e", "2E", "#", "#a", "\\", "a\\", "and", "or", "not", "ī", "н"] {
         v.push(tok(w));
     }
     v
@@ -399,6 +408,11 @@ fn digit_initial_word(t: &Tok) -> bool {
 /// digit-initial word ending in e/E (the signed-exponent join).  The caller additionally re-lexes the whole rendering
 /// with the reference lexer and discards it unless it yields the same token list.
 pub fn may_be_empty(a: &Tok, b: &Tok) -> bool {
+    may_be_empty_opt(a, b, true)
+}
+
+/// `strict = false` drops the mantissa-e restriction (the caller's re-lex check then decides)
+pub fn may_be_empty_opt(a: &Tok, b: &Tok, strict: bool) -> bool {
     if is_tight(a) || is_tight(b) {
         return true;
     }
@@ -412,7 +426,7 @@ pub fn may_be_empty(a: &Tok, b: &Tok) -> bool {
             Tok::Op(op) => {
                 let t = w.text();
                 let mantissa_e = digit_initial_word(w) && (t.ends_with('e') || t.ends_with('E'));
-                !(mantissa_e && (op.starts_with('+') || op.starts_with('-')))
+                !(strict && mantissa_e && (op.starts_with('+') || op.starts_with('-')))
             },
             _ => false,
         }
@@ -504,15 +518,19 @@ pub fn render_canonical(toks: &[Tok]) -> String {
 
 /// tightest rendering: empty gaps wherever allowed, single space elsewhere
 pub fn render_tight(toks: &[Tok]) -> String {
-    let mut s = String::new();
-    for (i, t) in toks.iter().enumerate() {
-        s.push_str(&t.text());
-        if i + 1 < toks.len() && !may_be_empty(t, &toks[i + 1]) {
-            s.push(' ');
+    for strict in [false, true] {
+        let mut s = String::new();
+        for (i, t) in toks.iter().enumerate() {
+            s.push_str(&t.text());
+            if i + 1 < toks.len() && !may_be_empty_opt(t, &toks[i + 1], strict) {
+                s.push(' ');
+            }
+        }
+        if let Ok(l) = lex(&s) {
+            if l.toks.len() == toks.len() && l.toks.iter().zip(toks).all(|(a, b)| a == b) {
+                return s;
+            }
         }
     }
-    match lex(&s) {
-        Ok(l) if l.toks.len() == toks.len() && l.toks.iter().zip(toks).all(|(a, b)| a == b) => s,
-        _ => render_canonical(toks),
-    }
+    render_canonical(toks)
 }
